@@ -234,6 +234,13 @@ def run(chk: Check):
     # the witness of the repaired small-precision defect always runs (theorem small_precision_repaired)
     reqs.append(f"ss.build {f2h(TOL)} " + req_lists([[0.0], [1e-6]], [5e-8])); meta.append(("build", [[0.0], [1e-6]], [5e-8], False))
 
+    # the error classes the package defines are the ones the model's validation can return (names read off the package, now)
+    import inspect
+    code_errs = sorted(n for n, c in inspect.getmembers(ss, inspect.isclass) if issubclass(c, ss.SearchSpaceError) and c is not ss.SearchSpaceError)
+    model_errs = sorted(lean_run(["ss.errors"])[0].split(" "))
+    chk.case(["error-classes", code_errs], True, {"op": "SearchSpaceError subclasses", "names": code_errs}); chk.count("error_classes_compared_with_the_model")
+    if code_errs != model_errs:
+        chk.disagree("the SearchSpaceError subclasses of the package != BlackIt.SearchSpace.errorNames", {"in_code_only": sorted(set(code_errs) - set(model_errs)), "in_model_only": sorted(set(model_errs) - set(code_errs))})
     answers = lean_run(reqs)
     for (kind, bounds, prec, arr), ans in zip(meta, answers):
         b_in = [np.array(b) for b in bounds] if arr and len({len(b) for b in bounds}) <= 1 else copy.deepcopy(bounds)
